@@ -463,8 +463,19 @@ func runC20(c *Ctx) {
 			c.DistinctCase(fmt.Sprint("typed-tail", pkg.name, k))
 		}
 	}
+	{
+		treps := 1
+		if !c.Quick() {
+			treps = 25
+		}
+		for rep := 0; rep < treps; rep++ {
+			for i, pkg := range typedPkgs {
+				typedTree(c, pkg, c.Seed*1000+int64(rep*12+i), (rep+i)%3)
+			}
+		}
+	}
 	restCheck(c)
-	c.Rep.Rule = "all 12 typed packages: the same seeded scenario (objects of the package's type created, changed, deleted; objects of ANOTHER type injected on the watch) run on a typed controller (BuildController) and on an untyped kcache controller side by side against one fake API server in virtual time: typed cache / filtered-subscription cache / subscription events / filtered-subscription events / monitor callbacks = the untyped ones restricted to the type (foreign objects skipped, never nil, same order), Get, readiness, Close; the typed cache vs the extracted typed_list; per package an initially empty collection (typed monitor callbacks = untyped ones, OnInitialize with nothing included) and a burst of 250 events nobody reads (typed subscription delivers what the untyped one delivers; Events() closed after Close). Source level: harness/cmd/gentokens tokenizes template and generated files and the Coq kernel checks instantiate(template) = generated for the 12 packages and executed-join-template = generated join for the 8 joins (20 per-run obligations). REST: every typed NewClient against a loopback HTTP API server, with and without namespace: path and query of list and watch. Non-trivial = every (package, scenario)."
+	c.Rep.Rule = "all 12 typed packages: the same seeded scenario (objects of the package's type created, changed, deleted; objects of ANOTHER type injected on the watch) run on a typed controller (BuildController) and on an untyped kcache controller side by side against one fake API server in virtual time: typed cache / filtered-subscription cache / subscription events / filtered-subscription events / monitor callbacks = the untyped ones restricted to the type (foreign objects skipped, never nil, same order), Get, readiness, Close; the typed cache vs the extracted typed_list; per package an initially empty collection (typed monitor callbacks = untyped ones, OnInitialize with nothing included) and a burst of 250 events nobody reads (typed subscription delivers what the untyped one delivers; Events() closed after Close). Per package the rest of the typed API as a tree next to the same untyped tree (Clone, CloneWithFilter, CloneForFilter, SubscribeForFilter, Refilter on each, a unitary handler through ToUnitary, typed Ready/Close/Done): readiness, caches, event sequences and callbacks equal the untyped twin restricted to the type at every barrier; a closed typed node is done, nothing above it stops, calls on stopped typed nodes fail. Source level: harness/cmd/gentokens tokenizes template and generated files and the Coq kernel checks instantiate(template) = generated for the 12 packages and executed-join-template = generated join for the 8 joins (20 per-run obligations). REST: every typed NewClient against a loopback HTTP API server, with and without namespace: path and query of list and watch. Non-trivial = every (package, scenario)."
 	c.Rep.Stats["runs"] = runs
 }
 
